@@ -435,6 +435,16 @@ impl LspServer {
         let mut ctx = cloned_ctx.lock().unwrap();
 
         match msg {
+            Message::Request(req) if !refers_to_a_file(&req.params) => {
+                // The document doesn't live in a file (e.g. 'untitled:Untitled-1', an editor's new unsaved document), so it
+                // cannot be part of the project and there is nothing we know about it
+                if self.request_handlers.contains_key(req.method.as_str()) {
+                    ctx.send_response(req.id, serde_json::Value::Null)?;
+                }
+            }
+            Message::Notification(not) if !refers_to_a_file(&not.params) => {
+                log::trace!("ignoring notification for a document that is not a file: {:?}", not);
+            }
             Message::Request(req) => match self.request_handlers.get(req.method.as_str()) {
                 Some(handler) => {
                     handler.handle(&mut ctx, req)?;
@@ -488,6 +498,21 @@ impl LspServer {
     ) {
         self.notification_handlers
             .insert(handler.method(), Box::new(handler));
+    }
+}
+
+/// Does the message refer to a text document that is a file (or to no text document at all)?
+fn refers_to_a_file(params: &serde_json::Value) -> bool {
+    match params
+        .get("textDocument")
+        .and_then(|td| td.get("uri"))
+        .and_then(|uri| uri.as_str())
+    {
+        Some(uri) => Url::parse(uri)
+            .ok()
+            .and_then(|uri| uri.to_file_path().ok())
+            .is_some(),
+        None => true,
     }
 }
 
